@@ -214,25 +214,54 @@ def parseToken (text : Inp) : Res Tok :=
   | [] => none
   | c :: r => tokenBody c r (c :: r)
 
-def parseTokenNotSemicolon (text : Inp) : Res Tok :=
-  match parseToken text with
-  | some (r, t) => if t = .semicolon || t = .closeBrace then none else some (r, t)
-  | none => none
-
 structure RawValue where
   tokens : List Tok
   important : Bool
 deriving Repr
 
+/-- the closing token an opening token waits for -/
+def closerOf : Tok → Option Tok
+  | .function _ => some .closeRound
+  | .openRound => some .closeRound
+  | .openSquare => some .closeSquare
+  | .openBrace => some .closeBrace
+  | _ => none
+
+def isCloserTok : Tok → Bool
+  | .closeRound | .closeSquare | .closeBrace => true
+  | _ => false
+
+/-- `open_blocks.iter().rposition(..)` + `truncate`: close the innermost waiting block of this kind together with
+    everything still open inside it (the stack is kept innermost first) -/
+def dropTo (st : List Tok) (t : Tok) : Option (List Tok) :=
+  match st with
+  | [] => none
+  | x :: r => if x = t then some r else dropTo r t
+def closeBlock (st : List Tok) (t : Tok) : List Tok := (dropTo st t).getD st
+
+/-- the token loop of `parse_value` (since the `fix:` commit "a ';' inside brackets does not end a declaration value"):
+    the value ends at a ';' outside every (), [] and {} block, or at a '}' that closes no '{' opened inside the value -/
+def valueGo : Nat → Inp → List Tok → List Tok → Inp × List Tok
+  | 0, i, _, acc => (i, acc)
+  | f + 1, i, st, acc =>
+    match parseToken i with
+    | none => (i, acc)
+    | some (next, t) =>
+      if t = .semicolon && st.isEmpty then (i, acc)
+      else if t = .closeBrace && !st.contains .closeBrace then (i, acc)
+      else
+        let st' := match closerOf t with
+          | some c => c :: st
+          | none => if isCloserTok t then closeBlock st t else st
+        valueGo f next st' (acc ++ [t])
+
 def parseValue (text : Inp) : Res RawValue :=
-  match many0 parseTokenNotSemicolon text with
-  | none => none
-  | some (rest, toks) =>
-    match toks.reverse with
-    | .ident x :: .delim '!' :: more =>
-      if x = "important" then some (rest, { tokens := more.reverse, important := true })
-      else some (rest, { tokens := toks, important := false })
-    | _ => some (rest, { tokens := toks, important := false })
+  let (rest, toks) := valueGo (text.length + 1) text [] []
+  match toks.reverse with
+  | .ident x :: .delim '!' :: more =>
+    if x = "important" then some (rest, { tokens := more.reverse, important := true })
+    else some (rest, { tokens := toks, important := false })
+  | _ => some (rest, { tokens := toks, important := false })
 
 /-! declarations -/
 structure Rgb where
